@@ -88,6 +88,7 @@ class Log:
         self.exit_heap = None
         self.steps = []
         self.bad = []
+        self.replies = {}         # step -> JSON text the REPLY command produced
         step = -1
         cur_snap = None
         for ln in lines:
@@ -186,6 +187,8 @@ class Log:
                 self.runio_ret = int(w[1].split("=")[1])
             elif k == "EXIT":
                 self.exit_heap = int(w[1].split("=")[1])
+            elif k == "REPLYTEXT":
+                self.replies[step] = unhex(w[3])
             elif k in ("BADCMD", "BADBATCH", "FATAL"):
                 self.bad.append(ln)
 
